@@ -15,3 +15,6 @@ def run(ctx, prog):
     cbs.run(ctx, prog)
     from rules import scan
     scan.run(ctx, prog)
+    from rules import c04
+    c04.keyval(ctx, prog)
+    J.r_numlook(ctx, prog)
